@@ -1,6 +1,6 @@
 """C03 - target groups are a valid dependency layering of every acyclic configuration."""
 import graphs
-THEOREMS = [("Properties.C03", "C03_holds"), ("AsFound.C03", "C03_as_found_refuted")]
+THEOREMS = [("Properties.C03", "C03_holds"), ("Properties.C03", "C03_index_holds"), ("Properties.C03", "C03_prune_holds"), ("AsFound.C03", "C03_as_found_refuted")]
 CORRESPONDENCE = "Dag::set_subtree_visibility + get_labeled_groups / Index::new / analyze pruning == Model.Dag.api_groups, Harness.Glue.model_index_groups"
 LEVEL_NOTE = ("Coq theorem C03_holds (graph level, unbounded): for every well-formed adjacency list and root set from which no cycle is "
               "reachable, the model of set_subtree_visibility* + get_labeled_groups returns Ok with groups that are duplicate-free, cover exactly "
@@ -10,7 +10,7 @@ LEVEL_NOTE = ("Coq theorem C03_holds (graph level, unbounded): for every well-fo
 TRUSTED = ["Coq 8.16.1 kernel; no axioms (closed under the global context)",
            "extraction (ExtrOcamlBasic) + ocaml/vmodel.ml; Harness/Glue.v decoders and the decidable oracles valid_layering_b, valid_pruned_b, cyclic_b (not proved equivalent to the Props)",
            "hooks src/verif.rs; HashMap/HashSet/VecDeque of the Rust std lib modelled as lists",
-           "the index-level composition (config -> adj_of -> groups, pruning to changed targets) is tied by the correspondence; the theorem is at graph level plus C10's edge theorem",
+           
            "modelled, not verified: the Rust source itself"]
 RULE = ("exhaustive digraphs on <=3 nodes x all root subsets (thorough: + all loop-free 4-node digraphs), random DAGs up to 60 nodes with planted "
         "diamonds/redundant edges and random relabelling, generated configurations with random visible subsets, analyze --target-groups with and "
